@@ -891,6 +891,65 @@ pub fn run(ctx: &mut Ctx) {
         }
     }
 
+    // ---- magnitudes: the combination is homogeneous - scaling every entry by 2^k scales the result by 2^k, exactly
+    // (powers of two) - so a fixed set of matrices is swept over 121 binary orders of magnitude and every result is
+    // held to the reference RELATIVE to its own size (an absolute tolerance would hide a result rounded to a fixed
+    // number of decimal places, or flushed to zero, for a similarity whose scores are small)
+    {
+        TWIN.with(|t| *t.borrow_mut() = None);
+        CURRENT_IDS.with(|c| *c.borrow_mut() = Rc::new(ids.clone()));
+        let bases: Vec<(usize, usize, Vec<f32>)> = vec![
+            (1, 1, vec![0.75]),
+            (1, 2, vec![0.40625, 0.8125]),
+            (2, 1, vec![0.59375, 0.21875]),
+            (2, 3, vec![0.15625, 0.9375, 0.34375, 0.53125, 0.28125, 0.71875]),
+            (3, 2, vec![0.46875, 0.09375, 0.65625, 0.90625, 0.03125, 0.78125]),
+            (3, 3, vec![0.5, 0.96875, 0.125, 0.84375, 0.25, 0.6875, 0.0625, 0.375, 0.4375]),
+        ];
+        ctx.space("matrices/magnitudes", &format!("{} fixed matrices (1x1 ... 3x3, entries k/32) x every scale 2^k, k = -60 ..= 60 x 3 combiners through HpoSet::similarity, GroupSimilarity::calculate and the Matrix: the result must be the reference within 1e-6 of its own magnitude", bases.len()));
+        for k in -60i32..=60 {
+            if !ctx.take() {
+                continue;
+            }
+            ctx.state();
+            ctx.nontrivial();
+            let scale = (2.0f32).powi(k);
+            for (r, c, vals) in &bases {
+                let (r, c) = (*r, *c);
+                let m: Vec<Vec<f32>> = (0..r).map(|i| (0..c).map(|j| vals[i * c + j] * scale).collect()).collect();
+                let a_ids: Vec<u32> = ids[..r].to_vec();
+                let b_ids: Vec<u32> = ids[4..4 + c].to_vec();
+                let mut table = Table::new();
+                for i in 0..r {
+                    for j in 0..c {
+                        table.grid[slot(&table.ids, a_ids[i])][slot(&table.ids, b_ids[j])] = m[i][j];
+                    }
+                }
+                let (a, b) = (set(&ont, &a_ids), set(&ont, &b_ids));
+                let data: Vec<f32> = m.iter().flatten().copied().collect();
+                for comb in COMBINERS {
+                    ctx.exec();
+                    ctx.validated();
+                    ctx.transitions(3);
+                    let want = reference(comb, &m, r, c);
+                    let got = guard(|| (a.similarity(&b, table.clone(), comb), GroupSimilarity::new(comb, table.clone()).calculate(&a, &b), comb.calculate(&Matrix::new(r, c, &data))));
+                    match got {
+                        Ok((s1, s2, s3)) => {
+                            for (site, x) in [("HpoSet::similarity", s1), ("GroupSimilarity::calculate", s2), ("SimilarityCombiner::calculate", s3)] {
+                                if !(x.is_finite() && (x as f64 - want).abs() <= 1e-6 * want.abs()) {
+                                    ctx.violation(site, "result is not the documented combination of the pairwise matrix (relative to the magnitude of the scores)", json!({"rows": r, "cols": c, "matrix": format!("{m:?}"), "scale": format!("2^{k}"), "combiner": format!("{comb:?}"), "observed": format!("{x:e}"), "expected": format!("{want:e}")}));
+                                    break;
+                                }
+                            }
+                        }
+                        Err(p) => ctx.violation("HpoSet::similarity", "panics", json!({"rows": r, "cols": c, "matrix": format!("{m:?}"), "scale": format!("2^{k}"), "observed": p})),
+                    }
+                }
+            }
+            ctx.sample(|| json!({"scale": format!("2^{k}")}));
+        }
+    }
+
     // ---- (last, because of the garbage it leaves in the allocator) sets around the 16-bit size border: the
     // documented combinations for |A| up to 65 535 with |B| in {1, 2, 4} and the transposed shapes
     {
